@@ -4,12 +4,14 @@
 # /repo, never /repo itself) and prints one line per change. Harmless mutants (listed below) must give
 # `no-failing-input-found`; all others a VIOLATION with a replay.
 cd "$(dirname "$0")/.."
-HARMLESS="C01_tie_open C09_balance_tie"
+HARMLESS="C01_tie_open C09_balance_tie C12W_binary_lossy_payload"
 export VMUT_DIR=${VMUT_DIR:-/tmp/vmut_selftest}
 run() { # name patch prop expect
   out=$(tools/mutant.sh "$2" "$3" 2>&1)
-  if echo "$out" | grep -q "^VIOLATION property=$3 .*no-failing-input-found"; then got=no-failing-input-found
-  elif echo "$out" | grep -q "^mutant: caught by 1 of 1"; then got=violation
+  # a concrete violation (a VIOLATION line with a replay of a failing input) wins over an additional
+  # `no-failing-input-found` line (e.g. of a sub-check whose model broke where its spec is silent)
+  if echo "$out" | grep "^VIOLATION property=" | grep -qv "no-failing-input-found"; then got=violation
+  elif echo "$out" | grep -q "^VIOLATION property=.*no-failing-input-found"; then got=no-failing-input-found
   else got=MISSED; fi
   sig=$(echo "$out" | grep -m1 "^# signature=" | cut -c3-90)
   printf "%-28s %-4s expect=%-24s got=%-24s %s\n" "$1" "$3" "$4" "$got" "$sig"
